@@ -114,7 +114,7 @@ RandInstance(r) ==
 
 \* ------------------------------------------------------------- steps
 \* edits (change M); every other step is a public call that must leave M alone
-IsEdit(s) == s.op \in {"setbounds", "setobj", "setdir", "setobjdict", "addrxn"}
+IsEdit(s) == s.op \in {"setbounds", "setobj", "setdir", "setobjdict", "addrxn", "dblcol"}
 ApplyStep(m, s) ==
   CASE s.op = "setbounds" -> [m EXCEPT !.lb[s.r] = s.lb, !.ub[s.r] = s.ub]
     [] s.op = "setobj" -> [m EXCEPT !.c[s.r] = s.k]
@@ -124,6 +124,9 @@ ApplyStep(m, s) ==
     [] s.op = "setdir" -> [m EXCEPT !.dir = s.dir]
     \* model.add_reactions([reverse copy of reaction r]): the stoichiometry of r negated, bounds (0, ub), no objective
     \* term -- a structural edit (it closes a two-reaction cycle with r when r is internal)
+    \* every coefficient of reaction r is doubled: reaction.add_metabolites({<metabolite ID as text>: coefficient ...})
+    \* for each of its metabolites (combine=True) -- the keys are identifiers, not objects
+    [] s.op = "dblcol" -> [m EXCEPT !.S[s.r] = [j \in 1..Len(m.mets) |-> 2 * m.S[s.r][j]]]
     [] s.op = "addrxn" -> [m EXCEPT !.rxns = Append(@, "R" \o ToString(Len(m.rxns) + 1)),
                                     !.S = Append(@, [j \in 1..Len(m.mets) |-> 0 - m.S[s.r][j]]),
                                     !.lb = Append(@, 0), !.ub = Append(@, s.ub), !.c = Append(@, 0)]
@@ -181,11 +184,26 @@ Script(m) ==
               \* before the optimisation (the loop law must hold for the model as it is optimised)
               \o (LET cr == {r \in RIdx(m) : \E z \in Cycles(m) : z[r] # 0} IN
                   IF cr = {} THEN <<>> ELSE <<[op |-> "add_loopless_ko", r |-> SetMin(cr)]>>)
+              \* an objective with TWO terms, both reactions of internal cycles (they can trade off against each other
+              \* at a constant objective value), then the loopless solution of an optimum and of another optimal vector
+              \o (LET zs == {z \in Cycles(m) : Cardinality({r \in RIdx(m) : z[r] # 0}) >= 2} IN
+                  IF zs = {} THEN <<>>
+                  ELSE LET z == CHOOSE y \in zs : TRUE
+                           a == SetMin({r \in RIdx(m) : z[r] # 0}) b == SetMin({r \in RIdx(m) : z[r] # 0} \ {a})
+                           \* the objective a + k2 * b does not change along the cycle z
+                           k2 == IF z[a] = z[b] THEN -1 ELSE 1 IN
+                       <<[op |-> "setobjdict", r |-> a, k |-> 1, r2 |-> b, k2 |-> k2],
+                         [op |-> "loopless_solution", start |-> "opt", ar |-> a, ad |-> "max"],
+                         [op |-> "loopless_solution", start |-> "aux", ar |-> a, ad |-> "max"],
+                         [op |-> "loopless_solution", start |-> "aux", ar |-> b, ad |-> "min"]>>)
 
 \* a pseudo-random step of the property's vocabulary (walk mode)
 DrawStep(r, m) ==
   LET d == Draws(r, 10) n == NR(m) rr == (d[2] % n) + 1 bp == Pick(BPairs, d[3])
-      edit == CASE d[4] % 3 = 0 -> [op |-> "setbounds", r |-> rr, lb |-> bp[1], ub |-> bp[2]]
+      \* (TLC takes the first arm whose guard holds: the narrower guards come first)
+      edit == CASE Prop = "C04" /\ d[4] % 3 = 0 /\ d[9] % 3 = 0 /\ (\A j \in 1..Len(m.mets) : m.S[rr][j] \in {-1, 0, 1})
+                     -> [op |-> "dblcol", r |-> rr]     \* a stoichiometry edit by identifier; a column is doubled at most once
+                [] d[4] % 3 = 0 -> [op |-> "setbounds", r |-> rr, lb |-> bp[1], ub |-> bp[2]]
                 [] d[4] % 3 = 1 /\ d[9] % 3 = 0 ->
                      \* (k = k2 = 0: the empty dictionary)
                      [op |-> "setobjdict", r |-> rr, k |-> Pick(<<0, 1, 0, -1>>, d[5]), r2 |-> (d[6] % n) + 1,
